@@ -1,20 +1,34 @@
 #!/usr/bin/env python3
 """C03 translator: working tree -> LLVM IR -> call graph -> lean/RtoscModel/CallGraph/Generated.lean
 
-  clang(++)-14 -O1 -S -emit-llvm -DNDEBUG   (clang 14 prints typed pointers)
+  TWO configurations, one generated Lean module each (the certificate must hold for both):
+    min     : -std=c++11 / -std=gnu99, -O1 -DNDEBUG   (lowest language level the headers support:
+              target_compile_features(rtosc-cpp PUBLIC cxx_std_11))      -> CallGraph/Generated.lean
+    shipped : language level, optimisation level and NDEBUG as CMakeLists.txt builds the library
+              (CMAKE_CXX_STANDARD 17 with extensions = -std=gnu++17, the rtosc target's -std=c99,
+              Release = -O3 -DNDEBUG)                                     -> CallGraph/Generated17.lean
+  clang(++)-14 -S -emit-llvm   (clang 14 prints typed pointers; gcc, the shipping compiler, emits no IR)
       all C sources of the library, src/cpp/ports.cpp, src/cpp/thread-link.cpp and
       harness/rt_entries.cpp (sample sugar tree instantiating every callback macro of
       port-sugar.h + the realtime entry points of namespace `rte`)
-  llvm-link-14 -S   -> one module (internal names are made unique by the linker)
+  llvm-link-14 -S   -> one module (internal names are made unique by the linker); the other C++
+      sources of the library are linked with --only-needed, so that a function of the realtime
+      path that lives in (or is moved to) another translation unit keeps its body in the graph
 
 Extracted from the text of that module:
-  * nodes     : every defined function, every declared (external) function, plus three
-                pseudo nodes for calls the extractor cannot resolve
-  * edges     : direct call/invoke edges; every indirect call is resolved to EVERY
-                address-taken function whose type equals the call's function type once all
-                pointer types are erased (so a virtual call through the base class reaches the
-                overrides in derived classes, and std::function's `_M_invoke` thunks stay
-                separate from its `_M_manager`)
+  * nodes     : every defined function, every declared (external) function, three pseudo nodes
+                for calls the extractor cannot resolve and one pseudo node for atomic
+                read-modify-write instructions (`atomicrmw`, `cmpxchg`: the building block of a
+                lock that has no callee, e.g. a std::atomic_flag spin lock)
+  * edges     : direct call/invoke edges; a function whose body contains an atomic
+                read-modify-write instruction has an edge to that pseudo node; a virtual call
+                (callee loaded from a slot of a `vtable pointer` load) is resolved to the functions
+                in that slot of the vtables of the receiver's static class and its derived
+                classes, restricted to the classes that are instantiated by code the realtime
+                entries or the harness support functions reach (or by a static initialiser);
+                every other indirect call is resolved to EVERY address-taken function whose type
+                equals the call's function type once all pointer types are erased (std::function's
+                `_M_invoke` thunks stay separate from its `_M_manager`)
   * excluded  : (stated preconditions) calls to std::__throw_bad_function_call and
                 __assert_fail, and calls in basic blocks reachable only through an `unwind`
                 edge (exception landing pads / catch handlers).  Listed explicitly.
@@ -38,12 +52,68 @@ import sys
 sys.path.insert(0, os.path.dirname(os.path.abspath(__file__)))
 import vlib  # noqa: E402
 
-GEN = os.path.join(vlib.LEAN, "RtoscModel", "CallGraph", "Generated.lean")
+GEN_DIR = os.path.join(vlib.LEAN, "RtoscModel", "CallGraph")
 CXX_SOURCES = ["src/cpp/ports.cpp", "src/cpp/thread-link.cpp"]
 HARNESS_UNIT = ["rt_entries.cpp"]
 HARNESS_DEPS = ["rt_entries.cpp", "rt_entries.h", "rt_tree.h"]
-FLAGS = ["-O1", "-S", "-emit-llvm", "-DNDEBUG", "-DRTOSC_VERIF"]
 CHUNK = 400
+
+BUILD_TYPE_FLAGS = {"Release": ["-O3", "-DNDEBUG"], "RelWithDebInfo": ["-O2", "-DNDEBUG"], "MinSizeRel": ["-Os", "-DNDEBUG"],
+                    "Debug": ["-O0"], "None": []}
+
+
+def cmake_config():
+    """What CMakeLists.txt of the working tree says about how the library is built: language levels, default
+    build type, definitions and the source lists of the two library targets."""
+    try:
+        cm = open(os.path.join(vlib.REPO, "CMakeLists.txt")).read()
+    except OSError:
+        cm = ""
+    cm = re.sub(r"#[^\n]*", "", cm)
+    m = re.search(r"CMAKE_CXX_STANDARD\s+(\d+)", cm)
+    cxxstd = m.group(1) if m else "11"
+    ext = not re.search(r"CMAKE_CXX_EXTENSIONS\s+(OFF|FALSE|0)\b", cm)
+    m = re.search(r"target_compile_options\s*\(\s*rtosc\s+PRIVATE[^)]*?-std=([\w+]+)", cm, re.S)
+    c_core = m.group(1) if m else None
+    m = re.search(r"CMAKE_C_STANDARD\s+(\d+)", cm)
+    c_other = ("gnu" + m.group(1)) if m else None
+    m = re.search(r"if\s*\(\s*NOT\s+CMAKE_BUILD_TYPE\s*\)\s*set\s*\(\s*CMAKE_BUILD_TYPE\s+\"?(\w+)", cm)
+    btype = m.group(1) if m else "None"
+    defs = []
+    for m in re.finditer(r"add_(?:compile_)?definitions\s*\(([^)]*)\)", cm):
+        for d in m.group(1).split():
+            d = d.strip('"')
+            if re.match(r"^(-D)?[A-Za-z_]\w*(=[\w.]*)?$", d):
+                defs.append(d if d.startswith("-D") else "-D" + d)
+    core = []
+    m = re.search(r"add_library\s*\(\s*rtosc\s+([^)]*)\)", cm)
+    if m:
+        core = [x for x in m.group(1).split() if x.endswith(".c")]
+    cpp = []
+    m = re.search(r"add_library\s*\(\s*rtosc-cpp\s+([^)]*)\)", cm)
+    if m:
+        cpp = [x for x in m.group(1).split() if re.search(r"^src/.*\.(c|cpp)$", x)]
+    return {"cxx_std": ("gnu++" if ext else "c++") + cxxstd, "c_std_core": c_core, "c_std_other": c_other,
+            "build_type": btype, "opt": BUILD_TYPE_FLAGS.get(btype, []), "defs": defs, "core_c": core, "cpp_target": cpp}
+
+
+def configs():
+    """The configurations the call graph is extracted for."""
+    cm = cmake_config()
+    core = set(cm["core_c"] or ["src/rtosc.c", "src/dispatch.c", "src/rtosc-time.c"])
+    return [
+        {"name": "min", "ns": "Gen", "file": "Generated.lean",
+         "what": "lowest supported language level: clang-14 -std=c++11 / -std=gnu99, -O1 -DNDEBUG",
+         "cxx": ["-std=c++11"], "c_core": ["-std=gnu99"], "c_other": ["-std=gnu99"], "opt": ["-O1", "-DNDEBUG"], "core": core,
+         "cmake": cm},
+        {"name": "shipped", "ns": "Gen17", "file": "Generated17.lean",
+         "what": "as CMakeLists.txt builds the library: clang-14 -std=%s / %s, %s" % (
+             cm["cxx_std"], "-std=" + cm["c_std_core"] if cm["c_std_core"] else "default C", " ".join(cm["opt"] + cm["defs"]) or "no flags"),
+         "cxx": ["-std=" + cm["cxx_std"]], "c_core": (["-std=" + cm["c_std_core"]] if cm["c_std_core"] else []),
+         "c_other": (["-std=" + cm["c_std_other"]] if cm["c_std_other"] else []), "opt": cm["opt"] + cm["defs"] + ["-fPIC"],
+         "core": core, "cmake": cm},
+    ]
+
 
 # library API symbols that are entries in their own right (when present in the module)
 API_ENTRIES = [
@@ -122,6 +192,9 @@ WHITELIST = {
     "strcpy": "libc memory/string leaf", "strncpy": "libc memory/string leaf", "strcat": "libc memory/string leaf",
     "strncat": "libc memory/string leaf", "stpcpy": "libc memory/string leaf", "strspn": "libc memory/string leaf",
     "strcspn": "libc memory/string leaf", "strpbrk": "libc memory/string leaf",
+    "strchrnul": "glibc memory/string leaf", "mempcpy": "glibc memory/string leaf", "memccpy": "libc memory/string leaf",
+    "memrchr": "glibc memory/string leaf", "stpncpy": "libc memory/string leaf", "rawmemchr": "glibc memory/string leaf",
+    "__mempcpy": "glibc memory/string leaf", "__stpcpy": "glibc memory/string leaf", "__strchrnul": "glibc memory/string leaf",
     "atoi": "glibc strtol: pure digit loop, reads the locale pointer from TLS",
     "atol": "glibc strtol", "atoll": "glibc strtol", "strtol": "glibc strtol", "strtoul": "glibc strtol",
     "strtoll": "glibc strtol", "strtoull": "glibc strtol",
@@ -162,6 +235,7 @@ INTRINSIC_OK = re.compile(r"^llvm\.(memcpy|memmove|memset|lifetime|stacksave|sta
 PSEUDO_UNRESOLVED = "<indirect call with no address-taken candidate>"
 PSEUDO_ASM = "<inline asm>"
 PSEUDO_UNPARSED = "<call the extractor could not parse>"
+PSEUDO_ATOMIC = "<atomic read-modify-write instruction>"
 
 
 class TranslatorError(Exception):
@@ -171,65 +245,110 @@ class TranslatorError(Exception):
 # ---------------------------------------------------------------------------------------
 # step 1: IR
 # ---------------------------------------------------------------------------------------
-def sources():
-    """All C sources of the library (so that a helper moved between C files stays inside the graph) and the two
-    C++ sources of the realtime path."""
-    return list(vlib.LIB_C), list(CXX_SOURCES)
+def sources(cfg):
+    """(C sources, C++ sources of the realtime path, other C++ sources of the library).  All C sources (so that a
+    helper moved between C files stays inside the graph); the other C++ sources are linked with --only-needed."""
+    cm = cfg["cmake"]
+    csrc = list(vlib.LIB_C)
+    for x in list(cm["core_c"]) + [y for y in cm["cpp_target"] if y.endswith(".c")]:
+        if x not in csrc and os.path.exists(os.path.join(vlib.REPO, x)):
+            csrc.append(x)
+    others = [x for x in vlib.LIB_CXX if x not in CXX_SOURCES]
+    for x in cm["cpp_target"]:
+        if x.endswith(".cpp") and x not in others and x not in CXX_SOURCES and os.path.exists(os.path.join(vlib.REPO, x)):
+            others.append(x)
+    return csrc, list(CXX_SOURCES), others
 
 
-def build_ir():
+def build_ir(cfg):
     """Returns (path of linked module text, key, 'cached'|'built')."""
     hdir = os.path.join(vlib.VERIF, "harness")
     deps = [os.path.join(hdir, d) for d in HARNESS_DEPS]
-    key = vlib.sha_files(vlib.repo_files() + deps, " ".join(FLAGS) + "cg3")
-    d = os.path.join(vlib.BUILD, "cg-" + key)
+    flags = ["-S", "-emit-llvm", "-DRTOSC_VERIF"] + cfg["opt"]
+    key = vlib.sha_files(vlib.repo_files() + deps, " ".join(flags + cfg["cxx"] + cfg["c_core"] + cfg["c_other"]) + "cg6")
+    pre = "cg-%s-" % cfg["name"]
+    d = os.path.join(vlib.BUILD, pre + key)
     out = os.path.join(d, "all.ll")
-    with vlib.Lock("cg"):
+    os.makedirs(vlib.BUILD, exist_ok=True)
+    with vlib.Lock("cg-" + cfg["name"]):
         if os.path.exists(out):
             return out, key, "cached"
+        import shutil
         for x in os.listdir(vlib.BUILD):
-            if x.startswith("cg-"):
-                import shutil
+            if x.startswith(pre) and not x.endswith(".lock"):
                 shutil.rmtree(os.path.join(vlib.BUILD, x), ignore_errors=True)
         os.makedirs(d, exist_ok=True)
         inc = ["-I", os.path.join(vlib.REPO, "include"), "-I", os.path.join(vlib.REPO, "src/cpp"),
                "-I", os.path.join(vlib.REPO, "src"), "-I", hdir]
-        csrc, cxxsrc = sources()
+        csrc, cxxsrc, others = sources(cfg)
         procs = []
         lls = []
+        olls = []
+
+        def start(tag, cmd, ll, optional=False):
+            procs.append((tag, optional, ll, subprocess.Popen(cmd + flags + inc + ["-o", ll], stdout=subprocess.PIPE,
+                                                               stderr=subprocess.STDOUT, text=True)))
+
         for s in csrc:
             p = os.path.join(vlib.REPO, s)
             if not os.path.exists(p):
                 continue
             ll = os.path.join(d, s.replace("/", "_") + ".ll")
             lls.append(ll)
-            procs.append((s, subprocess.Popen(["clang-14", "-std=gnu99"] + FLAGS + inc + [p, "-o", ll],
-                                              stdout=subprocess.PIPE, stderr=subprocess.STDOUT, text=True)))
+            start(s, ["clang-14"] + (cfg["c_core"] if s in cfg["core"] else cfg["c_other"]) + [p], ll)
         for s in cxxsrc:
-            p = os.path.join(vlib.REPO, s)
             ll = os.path.join(d, s.replace("/", "_") + ".ll")
             lls.append(ll)
-            procs.append((s, subprocess.Popen(["clang++-14", "-std=c++11"] + FLAGS + inc + [p, "-o", ll],
-                                              stdout=subprocess.PIPE, stderr=subprocess.STDOUT, text=True)))
+            start(s, ["clang++-14"] + cfg["cxx"] + [os.path.join(vlib.REPO, s)], ll)
         for s in HARNESS_UNIT:
-            p = os.path.join(hdir, s)
             ll = os.path.join(d, "harness_" + s + ".ll")
             lls.append(ll)
-            procs.append((s, subprocess.Popen(["clang++-14", "-std=c++11"] + FLAGS + inc + [p, "-o", ll],
-                                              stdout=subprocess.PIPE, stderr=subprocess.STDOUT, text=True)))
+            start(s, ["clang++-14"] + cfg["cxx"] + [os.path.join(hdir, s)], ll)
+        for s in others:
+            if not os.path.exists(os.path.join(vlib.REPO, s)):
+                continue
+            ll = os.path.join(d, "other_" + s.replace("/", "_") + ".ll")
+            start(s, ["clang++-14"] + cfg["cxx"] + [os.path.join(vlib.REPO, s)], ll, optional=True)
         bad = ""
-        for s, p in procs:
+        skipped = []
+        for s, optional, ll, p in procs:
             o, _ = p.communicate()
             if p.returncode != 0:
-                bad += "== %s\n%s\n" % (s, o[-3000:])
+                if optional:
+                    # a translation unit outside the realtime path that clang cannot compile is left out (its
+                    # functions stay externals: a reachable one fails the whitelist obligation)
+                    skipped.append(s)
+                else:
+                    bad += "== %s\n%s\n" % (s, o[-3000:])
+            elif optional:
+                olls.append(ll)
         if bad:
-            raise vlib.BuildError("clang cannot compile the working tree to LLVM IR:\n" + bad)
-        r = vlib.sh(["llvm-link-14", "-S"] + lls + ["-o", out + ".tmp"])
+            raise vlib.BuildError("clang cannot compile the working tree to LLVM IR (%s):\n%s" % (cfg["name"], bad))
+        base = os.path.join(d, "base.ll")
+        r = vlib.sh(["llvm-link-14", "-S"] + lls + ["-o", base])
         if r.returncode != 0:
             raise vlib.BuildError("llvm-link failed:\n" + r.stdout[-3000:])
-        os.rename(out + ".tmp", out)
-        for ll in lls:
-            os.remove(ll)
+        final = base
+        if olls:
+            oth = os.path.join(d, "others.ll")
+            r = vlib.sh(["llvm-link-14", "-S"] + olls + ["-o", oth])
+            if r.returncode == 0:
+                # static initialisers of the other translation units (their own port tables) are not part of the
+                # realtime path under analysis: without the constructor list nothing of them is "needed"
+                txt = open(oth).read().split("\n")
+                with open(oth, "w") as f:
+                    f.write("\n".join(l for l in txt if not l.startswith("@llvm.global_ctors")) + "\n")
+                r = vlib.sh(["llvm-link-14", "-S", base, "--only-needed", oth, "-o", out + ".tmp"])
+            if r.returncode == 0:
+                final = out + ".tmp"
+            else:
+                skipped.append("llvm-link --only-needed: " + r.stdout[-300:])
+        os.rename(final, out)
+        with open(os.path.join(d, "skipped.json"), "w") as f:
+            json.dump(skipped, f)
+        for ll in lls + olls + [base, os.path.join(d, "others.ll")]:
+            if os.path.exists(ll):
+                os.remove(ll)
         return out, key, "built"
 
 
@@ -385,14 +504,16 @@ def unq(name):
 
 
 class Func:
-    __slots__ = ("name", "defined", "ftype", "calls", "internal")
+    __slots__ = ("name", "defined", "ftype", "calls", "internal", "atomics", "vtrefs")
 
     def __init__(self, name, defined, ftype, internal=False):
         self.name = name
         self.defined = defined
         self.ftype = ftype
         self.internal = internal
-        self.calls = []     # (kind, target, excluded_reason or None, block)   kind in direct|indirect|asm|unparsed
+        self.calls = []     # (kind, target, excluded_reason or None, block)   kind in direct|indirect|virtual|atomic|asm|unparsed
+        self.atomics = []   # atomic read-modify-write instructions of the body (text)
+        self.vtrefs = set() # vtable globals the body mentions (a constructor stores the vtable pointer)
 
 
 _HDR = re.compile(r'^(define|declare)\s+(.*?)@("(?:[^"\\]|\\.)*"|[-\w.$]+)\s*\(')
@@ -434,7 +555,7 @@ def parse_call(rest):
                 raise ValueError("no argument list")
             ps, k, va = _parse_param_types(s, j + 1)
             ftype = "%s(%s)" % (t, ",".join(ps))
-        return "indirect", ftype, None
+        return "indirect", ftype, (m.group(0), s[j:])
     if s.startswith("asm", i):
         return "asm", None, None
     m = re.match(r"(bitcast|addrspacecast|inttoptr|getelementptr)\b", s[i:])
@@ -458,6 +579,105 @@ def _is_fn_type(t):
             if depth == 0:
                 return k > 0
     return False
+
+
+_DEFLINE = re.compile(r'^\s*(%(?:"(?:[^"\\]|\\.)*"|[-\w.$]+))\s*=\s*(.*)$')
+_TOK = r'%(?:"(?:[^"\\]|\\.)*"|[-\w.$]+)'
+_LOAD_PTR = re.compile(r'^load\s.*[\s*](' + _TOK + r')\s*(?:,\s*align\s+\d+)?((?:,\s*![\w.]+\s+!\d+)*)\s*$')
+_GEP_SLOT = re.compile(r'^getelementptr\s+(?:inbounds\s+)?.*[\s*](' + _TOK + r'),\s*i64\s+(\d+|' + _TOK + r')\s*$')
+_ATOMIC = re.compile(r'^\s*(?:' + _TOK + r'\s*=\s*)?(atomicrmw|cmpxchg)\b')
+_VT_GLOBAL = re.compile(r'@(_ZTV[\w.$]+)')
+
+
+def class_of_type(tok):
+    """`%"struct.rtosc::RtData"` / `%class.Foo.12` -> `rtosc::RtData` / `Foo`"""
+    t = tok[1:]
+    if t.startswith('"'):
+        t = t[1:-1]
+    t = re.sub(r"^(struct|class|union)\.", "", t)
+    t = re.sub(r"\.base$", "", re.sub(r"\.\d+$", "", t))
+    return t
+
+
+def virtual_site(defs, callee, after, vt_tags):
+    """A call through `callee` (an SSA name) is a virtual call when the callee was loaded from slot K of a table whose
+    address was loaded with `vtable pointer` TBAA.  Returns (receiver class, K) or None."""
+    rhs = defs.get(callee)
+    if rhs is None:
+        return None
+    m = _LOAD_PTR.match(rhs)
+    if not m:
+        return None
+    slotp = m.group(1)
+    rhs2 = defs.get(slotp)
+    if rhs2 is None:
+        return None
+    g = _GEP_SLOT.match(rhs2)
+    slots = [0]
+    if g:
+        if g.group(2).isdigit():
+            slots = [int(g.group(2))]
+        else:
+            # the optimiser merges two virtual calls of the same type into one call whose slot is a phi of constants
+            ph = defs.get(g.group(2))
+            if ph is None or not ph.startswith("phi i64 "):
+                return None
+            inc = re.findall(r"\[\s*([^,\]]+?)\s*,", ph)
+            if not inc or not all(x.isdigit() for x in inc):
+                return None
+            slots = sorted(set(int(x) for x in inc))
+        rhs2 = defs.get(g.group(1))
+        if rhs2 is None:
+            return None
+    m2 = _LOAD_PTR.match(rhs2)
+    if not m2:
+        return None
+    tags = set(re.findall(r"!tbaa\s+!(\d+)", m2.group(2)))
+    if not (tags & vt_tags):
+        return None
+    r = re.match(r'\s*\(\s*(' + _TOK + r')\s*\*', after)
+    if not r:
+        return None
+    return class_of_type(r.group(1)), tuple(slots)
+
+
+def parse_vtable(line):
+    """`@_ZTVX = ... constant { [n x i8*], ... } { [n x i8*] [e0, e1, ...], ... }` -> (functions of the primary table
+    from its address point on: index k = slot k).  None when the shape is not understood."""
+    m = re.search(r"\}\s*\{\s*\[\d+ x i8\*\]\s*\[", line)
+    if not m:
+        return None
+    i = m.end()
+    depth = 0
+    elems = []
+    cur = []
+    n = len(line)
+    while i < n:
+        c = line[i]
+        if c in "([{":
+            depth += 1
+        elif c in ")]}":
+            if depth == 0:
+                break
+            depth -= 1
+        if c == "," and depth == 0:
+            elems.append("".join(cur))
+            cur = []
+        else:
+            cur.append(c)
+        i += 1
+    elems.append("".join(cur))
+    syms = []
+    ap = None
+    for k, e in enumerate(elems):
+        g = _GLOBAL.search(e)
+        sym = unq(g.group(1)) if g else None
+        if ap is None and sym and sym.startswith("_ZTI"):
+            ap = k + 1
+        syms.append(sym)
+    if ap is None:
+        ap = 2
+    return syms[ap:]
 
 
 def parse_module(path):
@@ -508,12 +728,37 @@ def parse_module(path):
                     continue
                 addr_taken[g] += 1
 
-    # pass 2: globals (address-taken in initialisers)
+    # pass 2: globals (address-taken in initialisers), vtables, type infos, TBAA tags of vtable-pointer loads
+    vtables = {}       # `_ZTVX` -> functions by slot
+    bases = {}         # `X` (mangled suffix) -> set of mangled suffixes of its direct bases
+    static_inst = set()
+    vt_types = set()
+    vt_tags = set()
     for line in text:
         if line.startswith("@") and not line.startswith("@llvm.used") and not line.startswith("@llvm.compiler.used") \
                 and not re.search(r"=[^=]*\balias\b", line):
             eq = line.find("=")
             note_addr(line[eq + 1:])
+            gname = unq(_GLOBAL.match(line).group(1))
+            if gname.startswith("_ZTV"):
+                if re.search(r"=\s*(?:[\w()]+\s+)*(constant|global)\s+\{", line) and "external" not in line[eq:eq + 40]:
+                    vt = parse_vtable(line)
+                    if vt is not None:
+                        vtables[gname] = vt
+            elif gname.startswith("_ZTI"):
+                bs = set(unq(x)[4:] for x in _GLOBAL.findall(line[eq + 1:]) if unq(x).startswith("_ZTI"))
+                bases[gname[4:]] = bs
+            elif not gname.startswith(("_ZTT", "_ZTC", "_ZTS")):
+                static_inst.update(_VT_GLOBAL.findall(line[eq + 1:]))
+        elif line.startswith("!"):
+            m = re.match(r'^!(\d+) = !\{!"vtable pointer"', line)
+            if m:
+                vt_types.add(m.group(1))
+    for line in text:
+        if line.startswith("!"):
+            m = re.match(r"^!(\d+) = !\{!(\d+), !(\d+), i64 0\}", line)
+            if m and m.group(2) in vt_types:
+                vt_tags.add(m.group(1))
     # pass 3: bodies
     for f, a, b in bodies:
         note_addr(text[a].split("(", 1)[1] if "personality" in text[a] else "")
@@ -544,14 +789,31 @@ def parse_module(path):
                 continue
             normal.add(x)
             stack.extend(succ[x][0])
+        defs = {}
+        for k in range(a + 1, b):
+            dm_ = _DEFLINE.match(text[k])
+            if dm_:
+                defs[dm_.group(1)] = dm_.group(2)
         for bl, lines in blocks.items():
             for line in lines:
+                if "@_ZTV" in line:
+                    f.vtrefs.update(_VT_GLOBAL.findall(line))
                 m = _CALL.match(line)
                 if not m:
                     note_addr(line)
+                    am = _ATOMIC.match(line)
+                    if am:
+                        # an atomic read-modify-write: what a lock without a callee is made of.  Counted wherever it
+                        # stands (also in a landing pad: a lock taken by a destructor is still a lock)
+                        f.atomics.append(line.strip()[:120])
+                        f.calls.append(("atomic", None, None, bl))
                     continue
                 try:
-                    kind, tgt, _ = parse_call(m.group(2))
+                    kind, tgt, callee = parse_call(m.group(2))
+                    if kind == "indirect" and callee is not None:
+                        v = virtual_site(defs, callee[0], callee[1], vt_tags)
+                        if v is not None:
+                            kind, tgt = "virtual", (tgt, v[0], v[1])
                 except Exception as e:  # noqa: BLE001
                     kind, tgt = "unparsed", None
                     problems.append("%s: %s :: %s" % (f.name, e, line.strip()[:160]))
@@ -562,7 +824,8 @@ def parse_module(path):
                     excl = "precondition"
                 f.calls.append((kind, tgt, excl, bl))
                 note_addr(line, skip_first_of=tgt if kind == "direct" else None)
-    return funcs, addr_taken, problems
+    meta = {"vtables": vtables, "bases": bases, "static_inst": static_inst, "vt_tags": vt_tags}
+    return funcs, addr_taken, problems, meta
 
 
 # ---------------------------------------------------------------------------------------
@@ -601,63 +864,114 @@ class Graph:
     pass
 
 
-def build_graph(funcs, addr_taken, problems):
+SUPPORT_RE = re.compile(r"^_Z\d+rt_support_")
+
+
+def build_graph(funcs, addr_taken, problems, meta=None):
+    meta = meta or {"vtables": {}, "bases": {}, "static_inst": set(), "vt_tags": set()}
     g = Graph()
-    names = list(funcs.keys()) + [PSEUDO_UNRESOLVED, PSEUDO_ASM, PSEUDO_UNPARSED]
+    names = list(funcs.keys()) + [PSEUDO_UNRESOLVED, PSEUDO_ASM, PSEUDO_UNPARSED, PSEUDO_ATOMIC]
     idx = {n: k for k, n in enumerate(names)}
     by_type = collections.defaultdict(list)
     for n in addr_taken:
         by_type[funcs[n].ftype].append(n)
-    edges = set()
-    excluded = []          # (src, dst, reason)
-    indirect_sites = []    # (src, ftype, ncandidates)
-    edge_kind = {}
+
+    # ---- class hierarchy from the type infos / vtables of the module -------------------------------------
+    vtables, bases = meta["vtables"], meta["bases"]
+    dm_v = demangle(sorted(vtables))
+    cls_of_vt = {}             # `_ZTVX` -> `ns::Class`
+    vt_of_cls = {}
+    for v in vtables:
+        d = dm_v.get(v, v)
+        if d.startswith("vtable for "):
+            cls_of_vt[v] = d[len("vtable for "):]
+            vt_of_cls.setdefault(cls_of_vt[v], v)
+    derived = collections.defaultdict(set)      # mangled suffix -> direct derived classes (mangled suffix)
+    for x, bs in bases.items():
+        for y in bs:
+            derived[y].add(x)
+
+    def hierarchy(vt):
+        """vtables of the class of `vt` and of every class derived from it (those that have a vtable in the module)"""
+        out, stack, seen = [], [vt[4:]], set()
+        while stack:
+            x = stack.pop()
+            if x in seen:
+                continue
+            seen.add(x)
+            if "_ZTV" + x in vtables:
+                out.append("_ZTV" + x)
+            stack.extend(derived.get(x, ()))
+        return out
+
+    virtual_sites = []     # (src, class, slot, ftype)
+
+    def resolve_virtual(tgt, inst):
+        """candidates of a virtual call, or None when the class-aware resolution does not apply"""
+        ftype, cls, slots = tgt
+        vt = vt_of_cls.get(cls)
+        if vt is None:
+            return None
+        hs = hierarchy(vt)
+        cands_all, cands_inst = [], []
+        for h in hs:
+            tab = vtables[h]
+            for slot in slots:
+                if slot >= len(tab) or tab[slot] is None or tab[slot] not in idx:
+                    return None
+                cands_all.append(tab[slot])
+                if h in inst:
+                    cands_inst.append(tab[slot])
+        # no instantiated class in the hierarchy (the application is expected to derive one): every override
+        return sorted(set(cands_inst or cands_all)) or None
+
+    def all_edges(inst):
+        edges = set()
+        excluded = []
+        indirect_sites = []
+        edge_kind = {}
+        nvirt = 0
+        for f in funcs.values():
+            for kind, tgt, excl, bl in f.calls:
+                if kind == "direct":
+                    if tgt not in idx:
+                        dsts = [PSEUDO_UNPARSED]
+                    else:
+                        dsts = [tgt]
+                elif kind == "virtual":
+                    cands = resolve_virtual(tgt, inst)
+                    if cands is None:
+                        cands = by_type.get(tgt[0], [])
+                    else:
+                        nvirt += 1
+                    if not excl:
+                        indirect_sites.append((f.name, "virtual %s slot %s : %s" % (tgt[1], "/".join(map(str, tgt[2])), tgt[0]), len(cands)))
+                    dsts = list(cands) if cands else [PSEUDO_UNRESOLVED]
+                elif kind == "indirect":
+                    cands = by_type.get(tgt, [])
+                    if not excl:
+                        indirect_sites.append((f.name, tgt, len(cands)))
+                    dsts = list(cands) if cands else [PSEUDO_UNRESOLVED]
+                elif kind == "atomic":
+                    dsts = [PSEUDO_ATOMIC]
+                elif kind == "asm":
+                    dsts = [PSEUDO_ASM]
+                else:
+                    dsts = [PSEUDO_UNPARSED]
+                for d in dsts:
+                    e = (idx[f.name], idx[d])
+                    if excl:
+                        excluded.append((f.name, d, excl if excl != "precondition" else "precondition: " + PRECONDITION_CALLEES[d]))
+                    else:
+                        edges.add(e)
+                        edge_kind.setdefault(e, kind)
+        return edges, excluded, indirect_sites, edge_kind, nvirt
+
     for f in funcs.values():
         for kind, tgt, excl, bl in f.calls:
-            if kind == "direct":
-                if tgt not in idx:
-                    # callee is not a function of the module (e.g. an alias): treat as unparsed
-                    dsts = [PSEUDO_UNPARSED]
-                    problems.append("%s: direct call to unknown symbol %s" % (f.name, tgt))
-                else:
-                    dsts = [tgt]
-            elif kind == "indirect":
-                cands = by_type.get(tgt, [])
-                if not excl:
-                    indirect_sites.append((f.name, tgt, len(cands)))
-                dsts = list(cands) if cands else [PSEUDO_UNRESOLVED]
-            elif kind == "asm":
-                dsts = [PSEUDO_ASM]
-            else:
-                dsts = [PSEUDO_UNPARSED]
-            for d in dsts:
-                e = (idx[f.name], idx[d])
-                if excl:
-                    excluded.append((f.name, d, excl if excl != "precondition" else "precondition: " + PRECONDITION_CALLEES[d]))
-                else:
-                    edges.add(e)
-                    edge_kind.setdefault(e, kind)
-    g.names = names
-    g.idx = idx
-    g.edges = sorted(edges)
-    g.edge_kind = edge_kind
-    g.excluded = sorted(set(excluded))
-    g.indirect_sites = indirect_sites
-    g.funcs = funcs
-    g.addr_taken = addr_taken
-    g.problems = problems
-    # classification
-    g.externals = [n for n in names if n not in funcs or not funcs[n].defined]
-    g.cls = {}
-    for n in g.externals:
-        if n in (PSEUDO_UNRESOLVED, PSEUDO_ASM, PSEUDO_UNPARSED):
-            g.cls[n] = ("forbidden", "call the extractor cannot resolve")
-        else:
-            g.cls[n] = classify_external(n)
-    # a defined function with a forbidden name (e.g. a replaced operator new) stays forbidden
-    g.forbidden = [n for n in names if (g.cls.get(n, ("", ""))[0] == "forbidden") or
-                   (n in funcs and funcs[n].defined and classify_external(n)[0] == "forbidden")]
-    g.whitelist = [n for n in g.externals if g.cls[n][0] == "whitelist"]
+            if kind == "direct" and tgt not in idx:
+                problems.append("%s: direct call to unknown symbol %s" % (f.name, tgt))
+
     # entries
     ent = [n for n in funcs if funcs[n].defined and n.startswith(ENTRY_PREFIX) and not funcs[n].internal]
     missing_api = []
@@ -668,21 +982,72 @@ def build_graph(funcs, addr_taken, problems):
             missing_api.append(a)
     g.entries = sorted(set(ent), key=lambda n: idx[n])
     g.missing_api = missing_api
+    support = [n for n in funcs if funcs[n].defined and SUPPORT_RE.match(n)]
+
+    def bfs(edges, roots):
+        adj = collections.defaultdict(list)
+        for a, b in sorted(edges):
+            adj[a].append(b)
+        parent = {}
+        dq = collections.deque()
+        for e in roots:
+            if idx[e] not in parent:
+                parent[idx[e]] = None
+                dq.append(idx[e])
+        while dq:
+            x = dq.popleft()
+            for y in adj[x]:
+                if y not in parent:
+                    parent[y] = x
+                    dq.append(y)
+        return parent, adj
+
+    # ---- instantiated classes: fixpoint (rapid type analysis rooted at the entries + the harness support functions) ---
+    inst = set(v for v in meta["static_inst"] if v in vtables)
+    rounds = 0
+    while True:
+        rounds += 1
+        edges, excluded, indirect_sites, edge_kind, nvirt = all_edges(inst)
+        seen, _ = bfs(edges, g.entries + support)
+        inst2 = set(inst)
+        for x in seen:
+            n = names[x]
+            if n in funcs:
+                inst2.update(v for v in funcs[n].vtrefs if v in vtables)
+        if inst2 == inst or rounds > 50:
+            break
+        inst = inst2
+    g.instantiated = sorted(cls_of_vt.get(v, v) for v in inst)
+    g.classes = sorted(cls_of_vt.values())
+    g.virtual_resolved = nvirt
+    g.support = support
+
+    g.names = names
+    g.idx = idx
+    g.edges = sorted(edges)
+    g.edge_kind = edge_kind
+    g.excluded = sorted(set(excluded))
+    g.indirect_sites = indirect_sites
+    g.funcs = funcs
+    g.addr_taken = addr_taken
+    g.problems = problems
+    g.atomic_functions = [n for n in funcs if funcs[n].atomics]
+    # classification
+    g.externals = [n for n in names if n not in funcs or not funcs[n].defined]
+    g.cls = {}
+    for n in g.externals:
+        if n in (PSEUDO_UNRESOLVED, PSEUDO_ASM, PSEUDO_UNPARSED):
+            g.cls[n] = ("forbidden", "call the extractor cannot resolve")
+        elif n == PSEUDO_ATOMIC:
+            g.cls[n] = ("forbidden", "atomic read-modify-write instruction (atomicrmw / cmpxchg): a lock or a retry loop without a callee")
+        else:
+            g.cls[n] = classify_external(n)
+    # a defined function with a forbidden name (e.g. a replaced operator new) stays forbidden
+    g.forbidden = [n for n in names if (g.cls.get(n, ("", ""))[0] == "forbidden") or
+                   (n in funcs and funcs[n].defined and classify_external(n)[0] == "forbidden")]
+    g.whitelist = [n for n in g.externals if g.cls[n][0] == "whitelist"]
     # reachability (BFS, remembers parents for shortest paths)
-    adj = collections.defaultdict(list)
-    for a, b in g.edges:
-        adj[a].append(b)
-    parent = {}
-    dq = collections.deque()
-    for e in g.entries:
-        parent[idx[e]] = None
-        dq.append(idx[e])
-    while dq:
-        x = dq.popleft()
-        for y in adj[x]:
-            if y not in parent:
-                parent[y] = x
-                dq.append(y)
+    parent, adj = bfs(g.edges, g.entries)
     g.parent = parent
     g.reach = set(parent)
     g.cert = 0
@@ -779,23 +1144,29 @@ def sample_path(g):
     return list(reversed(p))
 
 
-def emit_lean(g, key):
+def emit_lean(g, key, cfg):
     dm = demangle(g.names)
+    ns = cfg["ns"]
     L = []
     L.append("/-")
-    L.append("GENERATED by tools/callgraph.py from the LLVM IR (clang 14, -O1 -DNDEBUG) of the working tree's")
-    L.append("realtime-path sources + harness/rt_entries.cpp.  Regenerated on every run of `tools/check.py C03`;")
-    L.append("the committed copy is the last good one.  Do not edit.")
+    L.append("GENERATED by tools/callgraph.py from the LLVM IR of the working tree's realtime-path sources +")
+    L.append("harness/rt_entries.cpp; configuration `%s` = %s." % (cfg["name"], cfg["what"]))
+    L.append("Regenerated on every run of `tools/check.py C03`; the committed copy is the last good one.  Do not edit.")
     L.append("")
-    L.append("nodes %d (defined %d, external %d, pseudo 3), edges %d, excluded edges %d, entries %d, forbidden %d," % (
-        len(g.names), sum(1 for f in g.funcs.values() if f.defined), len(g.externals) - 3, len(g.edges), len(g.excluded),
+    L.append("nodes %d (defined %d, external %d, pseudo 4), edges %d, excluded edges %d, entries %d, forbidden %d," % (
+        len(g.names), sum(1 for f in g.funcs.values() if f.defined), len(g.externals) - 4, len(g.edges), len(g.excluded),
         len(g.entries), len(g.forbidden)))
-    L.append("whitelisted externals %d, reachable nodes %d, indirect call sites %d" % (
-        len(g.whitelist), len(g.reach), len(g.indirect_sites)))
+    L.append("whitelisted externals %d, reachable nodes %d, indirect call sites %d (virtual, resolved by class: %d)" % (
+        len(g.whitelist), len(g.reach), len(g.indirect_sites), g.virtual_resolved))
+    L.append("classes with a vtable: %s" % ", ".join(g.classes)[:600])
+    L.append("instantiated (entries + harness support + static initialisers): %s" % ", ".join(g.instantiated)[:600])
+    L.append("functions containing an atomic read-modify-write instruction: %s" % (", ".join(dm[n][:80] for n in g.atomic_functions)[:800] or "none"))
     L.append("-/")
-    L.append("namespace Rtosc.CallGraph.Gen")
+    L.append("import RtoscModel.CallGraph.Reach")
     L.append("")
-    L.append("/-- number of nodes; node `i` is the function `nodeName i` -/")
+    L.append("namespace Rtosc.CallGraph.%s" % ns)
+    L.append("")
+    L.append("/-- number of nodes; node `i` is the function `nodeNames[i]` -/")
     L.append("def numNodes : Nat := %d" % len(g.names))
     L.append("")
     # names, chunked
@@ -819,7 +1190,8 @@ def emit_lean(g, key):
                                             (" [" + ",".join(tag) + "]") if tag else "",
                                             (" " + comment[:150].replace("\n", " ")) if comment else ""))
         L.append("]")
-    L.append("/-- mangled names of the nodes (documentation and replay only; no theorem depends on it) -/")
+    L.append("/-- mangled names of the nodes: `Props/C03.lean` pins the public realtime API (must be entries) and the")
+    L.append("    allocator / lock names (must be forbidden) against this list -/")
     L.append("def nodeNames : List String := " + " ++ ".join(nchunks))
     L.append("")
     # edges
@@ -836,7 +1208,8 @@ def emit_lean(g, key):
     for n in g.entries:
         L.append("-- entry %d %s" % (g.idx[n], dm[n][:160]))
     L.append("")
-    L.append("/-- functions that allocate, free, lock, throw or block, plus the pseudo nodes for unresolvable calls -/")
+    L.append("/-- functions that allocate, free, lock, throw or block, the pseudo nodes for unresolvable calls and the pseudo")
+    L.append("    node for atomic read-modify-write instructions -/")
     L.append("def forbidden : List Nat :=\n  " + nat_list(g.idx[n] for n in g.forbidden))
     for n in g.forbidden:
         L.append("-- forbidden %d %s" % (g.idx[n], dm[n][:160]))
@@ -851,7 +1224,8 @@ def emit_lean(g, key):
     L.append("")
     L.append("/-- STATED PRECONDITIONS: call edges left out of `edgeChunks` (caller, callee):")
     L.append("    calls to std::__throw_bad_function_call / __assert_fail, and calls in basic blocks that are only")
-    L.append("    reachable through an `unwind` edge (exception landing pads and catch handlers) -/")
+    L.append("    reachable through an `unwind` edge (exception landing pads and catch handlers).  The theorem has the")
+    L.append("    hypothesis that none of them is executed. -/")
     L.append("def excludedEdges : List (Nat × Nat) :=\n  " + pair_list(sorted(set((g.idx[a], g.idx[b]) for a, b, _ in g.excluded))))
     seen = set()
     for a, b, why in g.excluded:
@@ -869,46 +1243,71 @@ def emit_lean(g, key):
     L.append("/-- CERTIFICATE: bit mask of the nodes reachable from the entries, computed by the translator -/")
     L.append("def cert : Nat := 0x%x" % g.cert)
     L.append("")
-    L.append("end Rtosc.CallGraph.Gen")
+    L.append("/-- the generated call graph of configuration `%s` -/" % cfg["name"])
+    L.append("def graph : Graph :=")
+    L.append("  { numNodes := numNodes, nodeNames := nodeNames, edgeChunks := edgeChunks, entries := entries,")
+    L.append("    forbidden := forbidden, externals := externals, whitelist := whitelist, excludedEdges := excludedEdges,")
+    L.append("    samplePath := samplePath, cert := cert }")
+    L.append("")
+    L.append("end Rtosc.CallGraph.%s" % ns)
     return "\n".join(L) + "\n"
 
 
-def translate(write=True):
-    """Runs the whole translator.  Returns (graph, info dict)."""
-    ll, key, how = build_ir()
-    funcs, addr_taken, problems = parse_module(ll)
-    g = build_graph(funcs, addr_taken, problems)
-    src = emit_lean(g, key)
+def translate_one(cfg, write=True):
+    ll, key, how = build_ir(cfg)
+    funcs, addr_taken, problems, meta = parse_module(ll)
+    g = build_graph(funcs, addr_taken, problems, meta)
+    g.cfg = cfg
+    src = emit_lean(g, key, cfg)
+    gen = os.path.join(GEN_DIR, cfg["file"])
     changed = False
     if write:
-        old = open(GEN).read() if os.path.exists(GEN) else None
+        old = open(gen).read() if os.path.exists(gen) else None
         if old != src:
-            os.makedirs(os.path.dirname(GEN), exist_ok=True)
-            with open(GEN + ".tmp", "w") as f:
+            os.makedirs(os.path.dirname(gen), exist_ok=True)
+            with open(gen + ".tmp", "w") as f:
                 f.write(src)
-            os.rename(GEN + ".tmp", GEN)
+            os.rename(gen + ".tmp", gen)
             changed = True
-    info = {"ir": how, "ir_key": key, "nodes": len(g.names), "defined": sum(1 for f in funcs.values() if f.defined),
+    try:
+        skipped = json.load(open(os.path.join(os.path.dirname(ll), "skipped.json")))
+    except (OSError, ValueError):
+        skipped = []
+    info = {"config": cfg["name"], "what": cfg["what"], "lean_module": "RtoscModel.CallGraph." + cfg["file"][:-5],
+            "ir": how, "ir_key": key, "nodes": len(g.names), "defined": sum(1 for f in funcs.values() if f.defined),
             "edges": len(g.edges), "excluded_edges": len(g.excluded), "entries": len(g.entries),
             "forbidden": len(g.forbidden), "reachable": len(g.reach), "indirect_sites": len(g.indirect_sites),
+            "virtual_sites_resolved_by_class": g.virtual_resolved, "classes_instantiated": g.instantiated,
+            "functions_with_atomic_rmw": len(g.atomic_functions), "other_units_not_compiled": skipped,
             "generated_changed": changed, "parse_problems": problems[:20], "missing_api_entries": g.missing_api,
             "sha256_generated": hashlib.sha256(src.encode()).hexdigest()[:16]}
     return g, info
 
 
+def translate(write=True):
+    """Runs the whole translator for every configuration.  Returns [(graph, info dict)]."""
+    import concurrent.futures
+    cfgs = configs()
+    with concurrent.futures.ThreadPoolExecutor(max_workers=len(cfgs)) as ex:
+        futs = [ex.submit(build_ir, c) for c in cfgs]     # compile the configurations side by side
+        for f in futs:
+            f.result()
+    return [translate_one(c, write) for c in cfgs]
+
+
 if __name__ == "__main__":
-    g, info = translate(write="--dry" not in sys.argv)
-    print(json.dumps(info, indent=1))
-    dm = demangle(g.names)
-    if "--reach" in sys.argv:
-        for x in sorted(g.reach):
-            n = g.names[x]
-            print("%4d %s %s" % (x, "ext" if n in g.externals else "   ", dm[n][:150]))
-    if "--indirect" in sys.argv:
-        for s, t, c in g.indirect_sites:
-            if g.idx[s] in g.reach:
-                print("indirect in %s : %s -> %d candidates" % (dm[s][:80], t, c))
-    for o in offending(g):
-        print("OFFENDING %s (%s)" % (o["demangled"], o["why"]))
-        for s in o["steps"]:
-            print("    " + s)
+    for g, info in translate(write="--dry" not in sys.argv):
+        print(json.dumps(info, indent=1))
+        dm = demangle(g.names)
+        if "--reach" in sys.argv:
+            for x in sorted(g.reach):
+                n = g.names[x]
+                print("%4d %s %s" % (x, "ext" if n in g.externals else "   ", dm[n][:150]))
+        if "--indirect" in sys.argv:
+            for s_, t, c in g.indirect_sites:
+                if g.idx[s_] in g.reach:
+                    print("indirect in %s : %s -> %d candidates" % (dm[s_][:80], t, c))
+        for o in offending(g):
+            print("OFFENDING %s (%s)" % (o["demangled"], o["why"]))
+            for st in o["steps"]:
+                print("    " + st)
